@@ -282,7 +282,9 @@ def _parse_numba_decorators(node):
 
 
 class Index:
-    def __init__(self, root):
+    def __init__(self, root, overlay=None):
+        """overlay: {relpath: source text} replaces files in memory (used by the self-test's mutants)."""
+        overlay = overlay or {}
         self.root = os.path.abspath(root)
         pkgdir = os.path.join(self.root, PKG)
         if not os.path.isdir(pkgdir):
@@ -299,8 +301,11 @@ class Index:
                 if parts[-1] == "__init__":
                     parts = parts[:-1]
                 name = ".".join(parts)
-                with open(path, encoding="utf-8") as f:
-                    src = f.read()
+                if rel in overlay:
+                    src = overlay[rel]
+                else:
+                    with open(path, encoding="utf-8") as f:
+                        src = f.read()
                 self.modules[name] = ModuleInfo(name, path, rel, src)
 
     # ------------------------------------------------------------------ lookups
